@@ -398,6 +398,7 @@ func (b *Bucket) OpenUploadStreamWithID(ctx context.Context, id interface{}, nam
 
 	// create stream
 	stream := newUploadStream(ctx, b, id, name, chunkSize, opt.Metadata)
+	verifTuneUpload(stream)
 
 	return stream, nil
 }
